@@ -195,6 +195,7 @@ func ceiling(s *slip.Scope, f slip.Object, args slip.List, depth int) slip.Value
 				r = (*slip.Ratio)(&zr)
 			}
 		}
+		q = bigToInteger((*big.Int)(q.(*slip.Bignum)))
 	case slip.Complex:
 		slip.TypePanic(s, depth, "number", tn, "real")
 	}
